@@ -190,7 +190,7 @@ fn sub_sequences(input: &[u8], st: &mut Stats) -> R {
     let (_w, _r) = if alone { (Some(GATE.write().unwrap_or_else(|e| e.into_inner())), None) } else { (None, Some(GATE.read().unwrap_or_else(|e| e.into_inner()))) };
     let mut table = 0;
     for _ in 0..60 {
-        let n: u32 = match cs.below(12) {
+        let n: u32 = match cs.below(13) {
             0 | 1 => prev.wrapping_sub(1 + cs.below(2) as u32),
             2 => prev.wrapping_add(1 + cs.below(2) as u32),
             3 => prev,
@@ -201,6 +201,17 @@ fn sub_sequences(input: &[u8], st: &mut Stats) -> R {
             8 => prev.wrapping_add(65_536 * (1 + cs.below(3)) as u32),
             9 => prev & 0xffff,
             10 => (prev & 0xffff_0000) | cs.below(220) as u32,
+            // the previous number mixed with a constant hash functions are built from (a memo or
+            // cache keyed by a mixed number is the plausible place for such a relation)
+            11 => {
+                const MIX: [u32; 10] = [0x9e37_79b9, 0x85eb_ca6b, 0xc2b2_ae35, 0x0100_0193, 0x811c_9dc5, 0xcc9e_2d51, 0x1b87_3593, 0x27d4_eb2f, 0x1656_67b1, 0x517c_c1b7];
+                let k = MIX[cs.below(MIX.len())];
+                match cs.below(3) {
+                    0 => prev ^ k,
+                    1 => prev.wrapping_add(k),
+                    _ => prev.wrapping_mul(k),
+                }
+            }
             _ => cs.u16() as u32,
         };
         // three times in four stay in the table of the previous lookup
